@@ -116,6 +116,18 @@ func (e *Engine) verifyFunc(key string, ct *Contract, workRoot string, timeoutMs
 	dir := filepath.Join(workRoot, sanitize(key))
 	os.MkdirAll(dir, 0o755)
 	probes := fx.modelProbes()
+	fx.shortTimeout = func(name string) bool {
+		// an obligation listed as a known finding is expected to stay undischarged: do not wait long for it
+		if e.known == nil {
+			return false
+		}
+		for _, kf := range e.known.Findings {
+			if globMatch(kf.Obligation, name) {
+				return true
+			}
+		}
+		return false
+	}
 	rep.Results = dischargeAll(dir, fx, probes, timeoutMs, 16, sem)
 	for _, r := range rep.Results {
 		if (r.Status == "discharged" || r.Status == "covered") && os.Getenv("GVC_KEEPALL") == "" {
@@ -197,6 +209,7 @@ func runCheck(o checkOpts) int {
 		fmt.Println("SPEC-ERROR:", se)
 	}
 	known := loadKnown(filepath.Join(o.verifDir, "known_findings.json"))
+	eng.known = known
 	timeoutMs := 15000
 	if o.tier == "thorough" {
 		timeoutMs = 60000
